@@ -16,6 +16,9 @@
 import CrCube.Lemmas.PipelineMeasures
 import CrCube.Props.C05_Pipeline
 import CrCube.Props.C16
+import CrCube.Props.C11
+import CrCube.Props.C12
+import CrCube.Lemmas.PipelineRespondents
 
 set_option linter.unusedSimpArgs false
 set_option linter.unusedVariables false
@@ -242,6 +245,91 @@ theorem slice_colindex_respondents (R C : Var) (hR : R.CM3) (hC : C.CM3) (s : Su
   simp only [blockAt] at this
   rw [this]
   exact C16.colIndex_spec_2d R C hR hC s hf i j hi hj
+
+/-! ## respondent level: C11 and C12 end to end at displayed base cells -/
+
+/-- **the variance displayed at a base position is the specified indicator variance of the
+    respondents** (C11 `variance_eq_spec` through `slice_variance_is_C11`): 2-D categorical /
+    multiple-response design, the cube the back end tabulates for the survey, any transforms -/
+theorem slice_variance_respondents (R C : Var) (hR : R.CM) (hC : C.CM) (s : Survey)
+    (hf : SurveyFits [R, C] s) (hw : WeightsNonneg s) (num : CubeData) (rows cols : RDim) (dir : Dir)
+    (h : SliceWF { num with vars := [R, C], wraw := cubeOf [R, C] s, uraw := cubeOf [R, C] (unweight s), k := 0 }
+          rows cols)
+    (hcdR : rows.catDate = true → R.kind = .cat) (hcdC : cols.catDate = true → C.kind = .cat)
+    (p q i j : Nat)
+    (hp : (sliceRowOrder { num with vars := [R, C], wraw := cubeOf [R, C] s, uraw := cubeOf [R, C] (unweight s), k := 0 }
+            rows cols)[p]? = some (i : Int))
+    (hq : (sliceColOrder { num with vars := [R, C], wraw := cubeOf [R, C] s, uraw := cubeOf [R, C] (unweight s), k := 0 }
+            rows cols)[q]? = some (j : Int)) :
+    (((runSlice { num with vars := [R, C], wraw := cubeOf [R, C] s, uraw := cubeOf [R, C] (unweight s), k := 0 }
+        rows cols).mat (.variance dir)).getD p []).getD q .nan
+      = varianceSpec ⟨none, R, C⟩ s dir (.base i) (.base j) rows.catDate cols.catDate := by
+  have hi' := ((helper_run_mem_nat rows.cdim _ _ _ h.1 (rowROrder_wf _ rows cols h) i).1
+    (List.mem_of_getElem? hp)).1
+  have hj' := ((helper_run_mem_nat cols.cdim _ _ _ h.2.1 (colROrder_wf _ rows cols h) j).1
+    (List.mem_of_getElem? hq)).1
+  have hnr : (sliceCounts [R, C] (cubeOf [R, C] s) 0).nrows = rows.cdim.elems.length := h.2.2.1
+  have hnc : (sliceCounts [R, C] (cubeOf [R, C] s) 0).ncols = cols.cdim.elems.length := h.2.2.2.1
+  have hi : i < R.ext := by rw [← slice2d_nrows R C hR hC (cubeOf [R, C] s), hnr]; exact hi'
+  have hj : j < C.ext := by rw [← slice2d_ncols R C hR hC (cubeOf [R, C] s), hnc]; exact hj'
+  rw [slice_variance_is_C11 _ rows cols dir p q i j hp hq]
+  rw [posOf_nat _ _ i (by show i < (sliceCounts [R, C] (cubeOf [R, C] s) 0).nrows; rw [hnr]; exact hi'),
+    posOf_nat _ _ j (by show j < (sliceCounts [R, C] (cubeOf [R, C] s) 0).ncols; rw [hnc]; exact hj')]
+  rw [← C11.variance_eq_spec ⟨none, R, C⟩ s dir (.base i) (.base j) rows.catDate cols.catDate
+    (Side.base_OK i R) (Side.base_OK j C) (Side.base_Disj i) (Side.base_Disj j) hw hcdR hcdC]
+  rw [VarCell.variance_base _ i j rfl rfl, VarCell.variance_base _ i j rfl rfl]
+  have hnp : (varCellAt (sliceCounts [R, C] (cubeOf [R, C] s) 0) (sliceCtx rows cols) dir (.base i) (.base j)).np
+      = (VarCell.ofSurvey ⟨none, R, C⟩ s dir (.base i) (.base j) rows.catDate cols.catDate).np := by
+    show (sliceCounts [R, C] (cubeOf [R, C] s) 0).counts i j = .fin _
+    rw [C01.counts_faithful_2d R C hR hC s i j hi hj, specCount_isPos_base R C hR hC s hf]
+  have hnn : (varCellAt (sliceCounts [R, C] (cubeOf [R, C] s) 0) (sliceCtx rows cols) dir (.base i) (.base j)).nn
+      = (VarCell.ofSurvey ⟨none, R, C⟩ s dir (.base i) (.base j) rows.catDate cols.catDate).nn := by
+    show Val.fin 0 = .fin _
+    rw [isNeg_base_zero]
+  have hbase : (varCellAt (sliceCounts [R, C] (cubeOf [R, C] s) 0) (sliceCtx rows cols) dir (.base i) (.base j)).base
+      = (VarCell.ofSurvey ⟨none, R, C⟩ s dir (.base i) (.base j) rows.catDate cols.catDate).base := by
+    cases dir
+    · show (sliceCounts [R, C] (cubeOf [R, C] s) 0).rowBases i j = .fin _
+      rw [C02.rowBase_spec_2d R C hR hC s i j hi hj, specCount_inBase_row R C hR hC s hf]
+    · show (sliceCounts [R, C] (cubeOf [R, C] s) 0).columnBases i j = .fin _
+      rw [C02.colBase_spec_2d R C hR hC s i j hi hj, specCount_inBase_col R C hR hC s hf]
+    · show (sliceCounts [R, C] (cubeOf [R, C] s) 0).tableBases i j = .fin _
+      rw [C02.tableBase_spec_2d R C hR hC s i j hi hj, specCount_inBase_table R C hR hC s hf]
+  have hwc : ({ num with vars := [R, C], wraw := cubeOf [R, C] s, uraw := cubeOf [R, C] (unweight s), k := 0 } : CubeData).w
+      = sliceCounts [R, C] (cubeOf [R, C] s) 0 := rfl
+  rw [hwc, hnp, hnn, hbase]
+
+/-- **the z-score displayed at a base position, when the guards let it through, is the specified
+    adjusted standardized residual of the respondents** (C12 `z_eq_spec`) -/
+theorem slice_zscore_respondents (R C : Var) (hR : R.CM) (hC : C.CM) (s : Survey)
+    (hf : SurveyFits [R, C] s) (hw : WeightsNonneg s) (num : CubeData) (rows cols : RDim)
+    (i j : Nat) (hi : i < R.ext) (hj : j < C.ext)
+    (hg : zGuardAt (sliceCounts [R, C] (cubeOf [R, C] s) 0) (sliceCtx rows cols) (.base i) (.base j) = false) :
+    sliceOutCell { num with vars := [R, C], wraw := cubeOf [R, C] s, uraw := cubeOf [R, C] (unweight s), k := 0 }
+        rows cols .zscores (.base i) (.base j)
+      = zSpecCell false ⟨none, R, C⟩ s (.base i) (.base j) := by
+  rw [(slice_zscore_is_C12 _ rows cols (.base i) (.base j)).1]
+  have hg' : blockGuard (isDefective (sliceCounts [R, C] (cubeOf [R, C] s) 0).nrows
+      (sliceCounts [R, C] (cubeOf [R, C] s) 0).ncols (sliceCounts [R, C] (cubeOf [R, C] s) 0).counts)
+      (zBlockCells (sliceCounts [R, C] (cubeOf [R, C] s) 0) (sliceCtx rows cols) (.base i) (.base j)) = false := hg
+  have hwc : ({ num with vars := [R, C], wraw := cubeOf [R, C] s, uraw := cubeOf [R, C] (unweight s), k := 0 } : CubeData).w
+      = sliceCounts [R, C] (cubeOf [R, C] s) 0 := rfl
+  simp only [hwc]
+  rw [hg']
+  simp only [Bool.false_eq_true, if_false]
+  rw [← C12.z_eq_spec ⟨none, R, C⟩ s (.base i) (.base j) (Side.base_OK i R) (Side.base_OK j C) hw rfl rfl]
+  congr 1
+  show ZCell.mk ((sliceCounts [R, C] (cubeOf [R, C] s) 0).counts i j)
+      ((sliceCounts [R, C] (cubeOf [R, C] s) 0).tableBases i j)
+      ((sliceCounts [R, C] (cubeOf [R, C] s) 0).rowBases i j)
+      ((sliceCounts [R, C] (cubeOf [R, C] s) 0).columnBases i j) = _
+  rw [C01.counts_faithful_2d R C hR hC s i j hi hj, C02.tableBase_spec_2d R C hR hC s i j hi hj,
+    C02.rowBase_spec_2d R C hR hC s i j hi hj, C02.colBase_spec_2d R C hR hC s i j hi hj,
+    specCount_isPos_base R C hR hC s hf, specCount_inBase_table R C hR hC s hf,
+    specCount_inBase_row R C hR hC s hf, specCount_inBase_col R C hR hC s hf]
+  have hz := isNeg_base_zero ⟨none, R, C⟩ s i j
+  simp only [Side.base] at hz
+  simp [ZCell.ofPrims, Side.base, Side.isDiff, hz, Val.sub_fin]
 
 /-! ## C15 / C04 / numeric measures -/
 
